@@ -51,6 +51,7 @@ func main() {
 		solver := fs.String("solver", "z3", "solver binary")
 		sel := fs.Bool("select", false, "explore select alternatives")
 		samples := fs.Int("samples", 0, "path-end samples")
+		mapOrder := fs.Int("maporder", 0, "explore iteration orders of maps up to this size")
 		splitN := fs.Int("splitn", 0, "")
 		splitI := fs.Int("spliti", 0, "")
 		splitD := fs.Int("splitdepth", 0, "")
@@ -59,7 +60,7 @@ func main() {
 		fs.Parse(os.Args[2:])
 		spec := symgo.RunSpec{RepoDir: repoDir(), HarnessDir: verifDir() + "/harness", Pkg: *pkg, Fn: *fn, Sched: *sched, Preempt: *preempt,
 			Unwind: *unwind, MaxPaths: *maxPaths, LogQueries: *logq, Solver: *solver, Progress: true, Select: *sel, SampleEnds: *samples,
-			SplitN: *splitN, SplitI: *splitI, SplitDepth: *splitD, Params: map[string]int64{}}
+			SplitN: *splitN, SplitI: *splitI, SplitDepth: *splitD, MapOrder: *mapOrder, Params: map[string]int64{}}
 		for _, p := range params {
 			kv := strings.SplitN(p, "=", 2)
 			v, _ := strconv.ParseInt(kv[1], 10, 64)
